@@ -56,6 +56,25 @@ let lz13c (toks : string list) : string =
       compress_line ~skip_rt:(flag = "3") x c LZDecode.lz13_decompress
   | _ -> failwith "lz13c: bad case"
 
+(* the same two through CompressionFormat (cf_compress / cf_decompress); flag as for lz10c / lz13c, except
+   that the wrapper length is always computed when the enum's compress is used (flag 2 only) *)
+let lz10f (toks : string list) : string =
+  match toks with
+  | [flag; b] ->
+    if flag = "0" then "SKIP" else
+      let x = parse_b b in
+      compress_line ~skip_rt:(flag = "3") x (LZDecode.cf_compress LZDecode.CF10 Machine.Checked x) (LZDecode.cf_decompress LZDecode.CF10)
+  | _ -> failwith "lz10f: bad case"
+
+let lz13f (toks : string list) : string =
+  match toks with
+  | [flag; b] ->
+    if flag = "0" then "SKIP" else
+      let x = parse_b b in
+      let c = if flag = "2" then LZDecode.cf_compress LZDecode.CF13 Machine.Checked x else LZ11.compress13_nohdr Machine.Checked x in
+      compress_line ~skip_rt:(flag = "3") x c (LZDecode.cf_decompress LZDecode.CF13)
+  | _ -> failwith "lz13f: bad case"
+
 let lzd (toks : string list) : string =
   match toks with
   | [entry; flag; b] ->
@@ -74,3 +93,5 @@ let lzd (toks : string list) : string =
 let () = register "lz10c" lz10c
 let () = register "lz13c" lz13c
 let () = register "lzd" lzd
+let () = register "lz10f" lz10f
+let () = register "lz13f" lz13f
